@@ -83,6 +83,60 @@ pub fn values_scaled_fp<G: GroupApi>(seed: u64, alphabet: Tier) -> Vec<Val<G>> {
     out
 }
 
+/// representatives whose Jacobian X resp. Y coordinate IS a chosen field element t: Scaled(s) with s^2 x = t
+/// (square root of t/x) resp. s^3 y = t (cube root of t/y), on the first small discrete log that admits it.
+/// The coordinate alphabet T: the small FP(q) alphabet (special values, Montgomery-extreme stored values) plus
+/// stored limb patterns with zero / all-ones limbs; thorough: the whole quick FP(q) alphabet. For G2 t is embedded
+/// as real part, as imaginary part, and as t + u.
+pub fn values_coord_targets<G: GroupApi>(seed: u64, tier: Tier) -> Vec<Val<G>> {
+    use mccore::alpha::{fp_small, from_limbs, limbs_of, rinv};
+    let q = refmodel::q();
+    let ri = rinv(q);
+    let mut ts: Vec<N> = match tier {
+        Tier::Quick => fp_small(q, 18, seed),
+        Tier::Thorough => fp_alpha(q, Tier::Quick, seed).all,
+    };
+    let top = limbs_of(q)[3];
+    for l in [[0u64, 1, 0, 0], [0, u64::MAX, u64::MAX, top - 1], [u64::MAX, 0, 0, 0], [1, 0, 0, 1], [0, 0, 1, 0], [0, 0, 0, 1]] {
+        ts.push(mulm(&from_limbs(&l), &ri, q));
+    }
+    let ts = mccore::alpha::dedup(ts);
+    let mut out = vec![];
+    for t in &ts {
+        let mut embs = G::scale_embeddings(t);
+        if embs.len() > 1 {
+            // mixed: t + u
+            let e1 = embs[0].clone();
+            let u = G::scale_embeddings(&N::one()).pop().unwrap();
+            embs.push(e1.add(&u));
+        }
+        for tf in embs {
+            if tf.is_zero() {
+                continue;
+            }
+            for which in 0..2 {
+                for d in 1u64..=24 {
+                    let p = ref_mul::<G>(&n(d));
+                    let (x, y) = p.xy().unwrap();
+                    let sc = if which == 0 { x.inv().and_then(|xi| G::rf_sqrt(&tf.mul(&xi))) } else { y.inv().and_then(|yi| G::rf_cbrt(&tf.mul(&yi))) };
+                    if let Some(sc) = sc {
+                        if !sc.is_zero() {
+                            if let Some(v) = build::<G>(&n(d), &Rep::Scaled(sc)) {
+                                let (vx, vy, _) = v.v.coords();
+                                // the construction is self-checking
+                                assert!(if which == 0 { vx == tf } else { vy == tf }, "coordinate target not met");
+                                out.push(v);
+                                break;
+                            }
+                        }
+                    }
+                }
+            }
+        }
+    }
+    out
+}
+
 fn expect_pt<G: GroupApi>(what: &str, got: &G, want: &Pt<G::RF>, a: &Val<G>, b: Option<&Val<G>>) -> Result<(), Bad> {
     let g = alpha::<G>(got);
     ensure!(
@@ -238,6 +292,27 @@ fn c04_group<G: GroupApi>(run: &Run) {
         |i| Ok(Tally::new(c04_unary::<G>(&sp[i as usize])?, true, 0)),
         |i| json!({"op": "c04.unary", "group": G::NAME, "A": sp[i as usize].json()}),
     );
+    {
+        // Jacobian X / Y coordinate equal to every member of the coordinate alphabet
+        let ct = values_coord_targets::<G>(run.seed, run.tier);
+        let nc = ct.len() as u64;
+        run.note(&format!("coordinate_targets_{}", G::NAME), json!(nc));
+        run.grid(
+            Spec { name: &format!("c04.{}.coordinate-targets", G::NAME), n: nc * nm, classes: &[], required: &[] },
+            |i| {
+                let (a, b) = (&ct[(i / nm) as usize], &sm[(i % nm) as usize]);
+                let mut k = c04_pair::<G>(a, b)?;
+                k += c04_pair::<G>(b, a)?;
+                Ok(Tally::new(k, true, 0))
+            },
+            |i| json!({"op": "c04.pair2", "group": G::NAME, "A": ct[(i / nm) as usize].json(), "B": sm[(i % nm) as usize].json()}),
+        );
+        run.grid(
+            Spec { name: &format!("c04.{}.coordinate-targets.unary", G::NAME), n: nc, classes: &[], required: &[] },
+            |i| Ok(Tally::new(c04_unary::<G>(&ct[i as usize])?, true, 0)),
+            |i| json!({"op": "c04.unary", "group": G::NAME, "A": ct[i as usize].json()}),
+        );
+    }
     if run.tier == Tier::Thorough {
         let sf = values_scaled_fp::<G>(run.seed, Tier::Quick);
         let nf = sf.len() as u64;
@@ -392,6 +467,16 @@ fn c05_group<G: GroupApi>(run: &Run) {
             json!({"op": "c05.laws", "group": G::NAME, "P": sm[ix[0]].json(), "a": jn(&kl[ix[1]]), "b": jn(&kl[ix[2]])})
         },
     );
+    {
+        let ct = values_coord_targets::<G>(run.seed, run.tier);
+        let k9: Vec<N> = kq.iter().take(run.tier.pick(9, kq.len())).cloned().collect();
+        let (nc, n9) = (ct.len() as u64, k9.len() as u64);
+        run.grid(
+            Spec { name: &format!("c05.{}.coordinate-targets", G::NAME), n: nc * n9, classes: &[], required: &[] },
+            |i| Ok(Tally::new(c05_mul::<G>(&ct[(i / n9) as usize], &k9[(i % n9) as usize])?, true, 0)),
+            |i| json!({"op": "c05.mul", "group": G::NAME, "P": ct[(i / n9) as usize].json(), "k": jn(&k9[(i % n9) as usize])}),
+        );
+    }
     if run.tier == Tier::Thorough {
         let sf = values_scaled_fp::<G>(run.seed, Tier::Quick);
         let (nf, nq) = (sf.len() as u64, kq.len() as u64);
@@ -468,6 +553,7 @@ pub fn c10_case<G: GroupApi>(a: &Val<G>, f: Fmt) -> Result<u32, Bad> {
 fn c10_group<G: GroupApi>(run: &Run) {
     let mut vs: Vec<Val<G>> = values::<G>(run.tier, run.seed).into_iter().filter(|v| !v.d.is_zero()).collect();
     vs.extend(values_scaled_special::<G>(run.seed));
+    vs.extend(values_coord_targets::<G>(run.seed, run.tier));
     if run.tier == Tier::Thorough {
         vs.extend(values_scaled_fp::<G>(run.seed, Tier::Quick));
     }
@@ -593,6 +679,26 @@ fn c15_group<G: GroupApi>(run: &Run) {
         },
         |i| json!({"op": "c15.pair", "group": G::NAME, "A": vs[(i / nn) as usize].json(), "B": vs[(i % nn) as usize].json()}),
     );
+    {
+        let ct = values_coord_targets::<G>(run.seed, run.tier);
+        let sm = values_small::<G>(run.seed);
+        let (nc, nm) = (ct.len() as u64, sm.len() as u64);
+        run.grid(
+            Spec { name: &format!("c15.{}.coordinate-targets", G::NAME), n: nc * nm, classes: &[], required: &[] },
+            |i| {
+                let (a, b) = (&ct[(i / nm) as usize], &sm[(i % nm) as usize]);
+                let mut k = c15_pair::<G>(a, b)?;
+                k += c15_pair::<G>(b, a)?;
+                Ok(Tally::new(k, true, 0))
+            },
+            |i| json!({"op": "c15.pair2", "group": G::NAME, "A": ct[(i / nm) as usize].json(), "B": sm[(i % nm) as usize].json()}),
+        );
+        run.grid(
+            Spec { name: &format!("c15.{}.coordinate-targets.unary", G::NAME), n: nc, classes: &[], required: &[] },
+            |i| Ok(Tally::new(c15_unary::<G>(&ct[i as usize])?, true, 0)),
+            |i| json!({"op": "c15.unary", "group": G::NAME, "A": ct[i as usize].json()}),
+        );
+    }
     if run.tier == Tier::Thorough {
         let sf = values_scaled_fp::<G>(run.seed, Tier::Thorough);
         let sm = values_small::<G>(run.seed);
